@@ -36,7 +36,7 @@ PROPS["C01"] = {
     "level": "exploration",
     "technique": "property-based testing (rapidcheck): encode/decode round trip against getter snapshots of the source packets",
     "rule": "cases = generated batches of 1..12 (thorough ..40) packet recipes of all payload kinds x DataContext{min,max} (max 25..65559 and, rarely, up to 300000) x every encode entry point x "
-            "encoder ids, half of them preceded by 1..3 earlier encode calls on the same encoder object; a case is non-trivial when the batch needs segmentation, or aggregates >=2 packets into one frame, "
+            "encoder ids, half of them preceded by 1..3 earlier encode calls on the same encoder object (one in eight of them ended by the caller's iterator throwing); a case is non-trivial when the batch needs segmentation, or aggregates >=2 packets into one frame, "
             "or mixes message types, or has a payload length within +-2 of the fit boundary; distinct = distinct "
             "serialized cases (64-bit hash)",
     "assumptions": COMMON_ASSUMPTIONS + ["typed payloads in the batch are well-formed by the oracle's own validators"],
@@ -90,7 +90,7 @@ PROPS["C09"] = {
     "level": "exploration",
     "technique": "stateful property-based testing (rapidcheck): generated operation sequences on one Encoder against a counter/identity model",
     "rule": "cases = sequences of 1..8 (thorough ..14) operations {setDeviceId, setStreamId (a third of them re-apply the value "
-            "already configured), restart, encode via the three overloads, encode 20000..33000 one-byte packets with max=25}; non-trivial when the 16-bit counter wraps, or an id "
+            "already configured), restart, encode via the three overloads (a third of the batches hold packets with a zero-length payload, which open frames without messages), encode 20000..33000 one-byte packets with max=25}; non-trivial when the 16-bit counter wraps, or an id "
             "change/restart after emitted frames is followed by another encode; distinct = distinct serialized sequences",
     "assumptions": COMMON_ASSUMPTIONS,
     "level_text": "Model-based search over operation histories: every emitted frame header and getSequenceCounter() are compared "
@@ -105,7 +105,7 @@ PROPS["C09"] = {
 PROPS["C10"] = {
     "level": "exploration",
     "technique": "metamorphic property-based testing (rapidcheck): encoder with generated history vs fresh encoder on the same final batch",
-    "rule": "cases = (history of 0..4 (thorough ..6) encode calls incl. empty batches, final batch + context), final batch biased to "
+    "rule": "cases = (history of 0..4 (thorough ..6) encode calls incl. empty batches, zero-length-payload packets and calls ended part-way by the caller's iterator throwing, final batch + context), final batch biased to "
             "continue the history's last message type and to need segmentation; non-trivial when the history is non-empty and the "
             "final batch segments or mixes message types; distinct = distinct serialized cases",
     "assumptions": COMMON_ASSUMPTIONS + ["differential oracle: the library on a fresh object is the reference, as the property states"],
@@ -226,7 +226,7 @@ PROPS["C04"] = {
 PROPS["C03"] = {
     "level": "exploration",
     "technique": "bounded exhaustive enumeration + property-based testing (rapidcheck) + coverage-guided fuzzing (libFuzzer) of validators and accessors under ASan with an in-bounds view predicate",
-    "rule": "cases = (typed payload class, buffer size, background, inner length field values, path: class validator+constructor / "
+    "rule": "cases = (typed payload class, buffer size, background zero / ones / pseudo-random / pseudo-random without any zero byte, inner length field values (capture-module: also all prefixes behind string k >= 0x0101 with an exact-size buffer), path: class validator+constructor / "
             "message buffer -> Packet constructor / frame -> Decoder); exhaustive over every size 0..header+8 and every inner length "
             "value 0..rest+2 plus boundary values, random beyond; non-trivial when the buffer is accepted by validation AND has an inner "
             "length > 0 or a size within 8 bytes of the header size; distinct = distinct serialized cases",
@@ -299,7 +299,7 @@ PROPS["C11"] = {
     "level": "exploration",
     "technique": "stateful property-based testing (rapidcheck) + exhaustive value sweeps: every setter against a field-map model, all getters compared after each write",
     "rule": "cases = (class out of 18 header / payload classes incl. TECMP, prior state from an all-zero / all-ones / pseudo-random image, "
-            "sequence of 1..16 (thorough ..40) in-range writes incl. the TECMP group setters of 0..12 raw bytes) and, exhaustively, every in-range value of every field <= 16 bits on the "
+            "sequence of 1..16 (thorough ..40) in-range writes incl. the TECMP group setters of 0..12 raw bytes and Packet::setPayload with any known type x arbitrary bytes x length 0..79) and, exhaustively, every in-range value of every field <= 16 bits on the "
             "three backgrounds with boolean flags set and cleared in both orders; non-trivial when a write on a non-zero background "
             "changes the value; distinct = distinct serialized cases (an exhaustive sweep case covers up to 65536 writes, counted in "
             "counters.writes)",
@@ -323,7 +323,7 @@ PROPS["C12"] = {
     "rule": "cases = (a) API writes of in-range values onto objects with zero / ones / pseudo-random images, raw bytes compared with the "
             "image the layout table prescribes (exactly the field's bits replaced); (b) hand-laid images read back through every "
             "getter; (c) default objects: reserved bits zero, header sizes; (d) Packet::getRawCmpHeader / getRawMessageHeader for "
-            "generated packets of every message type; non-trivial when the field is wider than a byte or narrower than its container "
+            "generated packets of every message type; (e) the length-prefixed variable part of the capture-module / interface payloads, written onto fresh objects and over earlier content (setData or raw bytes), all raw bytes compared with the independent builder, and read back from hand-laid bytes; non-trivial when the field is wider than a byte or narrower than its container "
             "(endianness / masks matter), or a packet raw-header / default-object case; distinct = distinct serialized cases",
     "assumptions": COMMON_ASSUMPTIONS + ["trusted base: the layout table in harness/common/fields.h and harness/oracle/wire.h, written from the ASAM CMP 1.0 / "
                                          "TECMP layouts (as in the Wireshark dissectors) and cross-checked against the real captures embedded in the "
@@ -418,9 +418,9 @@ PROPS["C19"] = {
     "level_note": "Trusted: ThreadSanitizer. See DESIGN.md sec. 7 for the limits.",
     "stages": [
         pbt("tsan_workloads", "pbt_C19", variant="tsan", quick={"cases": 150, "size": 100, "shards": 8},
-            thorough={"cases": 4000, "size": 200, "shards": 16}),
+            thorough={"cases": 4000, "size": 200, "shards": 16}, schedule_dependent=True),
         pbt("asan_workloads", "pbt_C19", variant="asan", quick={"cases": 300, "size": 100, "shards": 8},
-            thorough={"cases": 6000, "size": 200, "shards": 16}),
+            thorough={"cases": 6000, "size": 200, "shards": 16}, schedule_dependent=True),
     ],
 }
 
@@ -431,8 +431,8 @@ PROPS["C20"] = {
     "engine": "rapidcheck + valgrind memcheck",
     "technique": "property-based generation of codec / decoder / TECMP / status / builder workloads, replayed under valgrind memcheck with definedness client requests on every output byte, plus a poisoned-heap differential (0xAA vs 0x55 fill)",
     "rule": "cases = generated workloads (encoder call sequences incl. padded frames and status / vendor / control messages, decoder "
-            "histories with reassembly, TECMP frames, status operation sequences, payload-builder sequences on reused objects, codec "
-            "round trips); natively every case runs twice with fresh heap blocks filled 0xAA / 0x55 and all outputs must be bit-identical; "
+            "histories with reassembly and validator-accepted typed payloads (capture-module payloads also un-padded with odd prefixes), TECMP frames, status operation sequences, payload-builder sequences on reused objects, codec "
+            "round trips); natively every case runs twice with fresh heap blocks (over-allocated by 16 bytes) filled 0xAA / 0x55 and all outputs - frames, packet fields, raw bytes and every typed accessor value of valid typed packets - must be bit-identical; "
             "a sample of the non-trivial cases is replayed under memcheck; non-trivial = the workload exercises padding, non-data "
             "messages, reassembly, TECMP conversion, status tracking or builders and produced output bytes; distinct = distinct serialized cases",
     "assumptions": COMMON_ASSUMPTIONS + ["memcheck decides definedness exactly for the executed cases (heap and stack); the poisoning differential covers "
